@@ -359,9 +359,28 @@ def hide_undoc_in_a():
                 if not sbst.startswith("ok"):
                     return [f"building B against A failed: {sbst[:300]}"]
                 bad, n = check_b_links(os.path.join(pb, "doc"), os.path.join(pa, "doc"), {"liba_core": "module/liba_core.html", "shape_t": "type/shape_t.html", "area": "proc/area.html"}, set())
-                return bad
+        # an undocumented type of A (no page there) with a binding, extended and used in B: it costs the links, not the run, and the name is shown as written
+        with site.site(UNDOC_A, META_A + "hide_undoc: true\n", sandbox=sb, proj="A2") as (pa, sa):
+            if not sa.startswith("ok"):
+                return bad + [f"building A2 failed: {sa}"]
+            with site.site(UNDOC_B, META_B.replace("../A/doc", "../A2/doc"), sandbox=sb, proj="B2") as (pb, sbst):
+                if not sbst.startswith("ok"):
+                    return bad + [f"building B2 against A2 (hide_undoc, an undocumented type with a binding that B2 extends) failed: {sbst[:300]}"]
+                page = open(os.path.join(pb, "doc", "type", "child.html"), encoding="utf-8").read()
+                m = re.search(r'id="type-def-statement">\s*(.*?)</h2>', page, re.S)
+                head = re.sub(r"<[^>]+>", "", m.group(1)).strip() if m else None
+                if head != "type, public, extends(base_t) :: child":
+                    bad.append(f"type/child.html: the heading reads {head!r}, the source says `type, extends(base_t) :: child`")
+                b2, n = check_b_links(os.path.join(pb, "doc"), os.path.join(pa, "doc"), {"amod": "module/amod.html"}, set())
+                bad += b2
+        return bad
     finally:
         shutil.rmtree(sb, ignore_errors=True)
+
+
+UNDOC_A = {"src/a.f90": "module amod\n  !! A's module\n  implicit none\n  type :: base_t\n    integer :: n\n  contains\n    procedure :: show\n  end type base_t\ncontains\n  subroutine show(self)\n    class(base_t) :: self\n"
+                        "  end subroutine show\nend module amod\n"}
+UNDOC_B = {"src/b.f90": "module bmod\n  !! B, see [[amod]]\n  use amod\n  implicit none\n  type, extends(base_t) :: child\n    !! child doc\n  end type child\n  type(base_t) :: v\n    !! v doc\nend module bmod\n"}
 
 
 def search(parts=("end_to_end", "broken", "absolute", "remote")):
